@@ -46,6 +46,16 @@ Two kinds of cases.
   certificate relative to the scaled counts and agree with the unscaled ones to 1e-4 (the stopping rule is an
   absolute test on a pseudo-likelihood that is not scale-free; observed <= 5.5e-7).  Counts scaled UP by 2^40 and
   more stop early (float resolution of the likelihood sum): known finding self-consistency-huge-counts.
+* cert cases with a sparse "recipe" (round 3s, fourth wave): c["container"] is a JSON dict from which a non-canonically
+  stored sparse matrix is built through scipy's raw constructors: COO / CSR / CSC (matrix and array classes) with several
+  stored entries for one cell (also one stored 1 per transition, what assigns_to_counts returns), explicitly stored zeros
+  (on empty cells, opposite one-way counts, on occupied cells), unsorted indices; DIA (dia_matrix, dia_array, spdiags)
+  whose `data` is wider than the matrix, with zero padding or junk in the spare columns and unused diagonal ends,
+  offsets in any order; BSR with repeated and all-zero blocks.  c["C"] is the matrix the container denotes (stored
+  entries of a cell add up), computed from the recipe in exact arithmetic; run_impl checks that scipy's toarray() and
+  the container's own storage arrays say the same.  Demanded: everything a cert case demands, relative to that matrix
+  (certificate in Coq and in the oracle, likelihood clauses), plus oracle key sparse-dense-agree: builders.mle of the
+  container = builders.mle of the dense matrix (1e-12; bit-identical on the unchanged code).
 """
 import os, sys, math, random, warnings
 from fractions import Fraction as F
@@ -71,6 +81,7 @@ RULE = ("strongly connected count matrices, n = 1..7 (sweep cases n <= 5): rando
         "scale cases: n = 2..4, counts multiplied by 2^e, e in {-10,-20,-34,-40,20} and one of {-100,-70,40,60,100}: k-sweep results equal between scales (1e-9) and equal to the model of the unscaled counts, converged results certified relative to the scaled counts. "
         "leaf cases: every chain / star / leaf-on-dense-block pattern for n = 2..5 with and without self counts on the other states, integer and real counts, as sweep and cert cases (both implementations). "
         "balanced-core cases: n = 5..7, integer counts, 3..4 flow-balanced states (symmetric counts + circulations) with the lowest indices followed by 2..3 states exchanging very unequal counts, every core state tied to the rest through cycles; as sweep (k = 2, 3), mono, stop and cert cases. "
+        "recipe cases (cert): n = 2..5 (thorough ..6), counts integers or multiples of 1/8, held in non-canonically stored sparse containers built from a JSON recipe: coo/csr/csc matrix and array classes with duplicate stored entries (also one stored 1 per transition), explicitly stored zeros, unsorted indices, DIA (dia_matrix / dia_array / spdiags) with data wider than the matrix (zero padding or junk outside, offsets in any order), BSR with repeated blocks; formats, classes, dtypes (int64/int32/float64) and padding kinds dealt in turn; the matrix they denote (duplicates sum) is computed exactly from the recipe and is what the model is certified against; mle(container) = mle(dense). "
         "non-trivial := n >= 3, not symmetric, a model was returned and at least one sweep changed X (stop cases: at least 2 sweeps)")
 TRUSTED = ["translator/tr_prinz.py (array-element renaming, loop-shape recognition; the logl terms and the convergence test are translated, `logl = 0` / `oldlogl = logl` / `break` / the warning condition n_iter == max_iter - 1 are recognised as the shape prinz_loop implements; np.log -> klog, C log10 -> klog10 = ln/ln 10)",
            "modelled not verified: IEEE rounding (comparison at 1e-9 / 1e-6), numpy sum/division broadcasting, scipy sparse <-> dense conversion; the stopping rule is modelled (prinz_loop) and compared on stop cases whose iteration needs <= 30 sweeps, the executable ln on Q is a 2^-64 approximation (Model/Prinz.v qlog, not proved)",
@@ -333,6 +344,260 @@ def _dec(C):
     return [[F(x) for x in row] for row in C]
 
 
+# ----------------------------------------------------------------------------- round 3s, fourth wave: sparse "recipes"
+# A cert case may carry, instead of a container name, a recipe (a JSON dict) from which a NON-CANONICALLY stored sparse
+# matrix is built through the raw constructors: several stored entries for one cell (they add up), explicitly stored
+# zeros, unsorted indices, DIA storage that is wider than the matrix and holds junk outside it, BSR with repeated blocks.
+# The matrix such a container denotes (= what .toarray() gives; duplicates SUM) is computed here in exact arithmetic from
+# the recipe; it is c["C"], and everything the property demands of builders.mle is demanded relative to it.
+RECIPE_FMTS = ["coo-dups", "dia-wide", "csr-dups", "coo-unit", "dia-wide", "csc-dups", "coo-zeros", "dia-wide", "csr-unsorted",
+               "bsr-dups", "csr-zeros", "dia-wide"]
+RECIPE_SHAPES = ["ring", "sparse", "mid", "full", "chain-self", "leaf-block", "asym", "sparse"]
+DIA_CLS = ["dia_matrix", "spdiags", "dia_array"]
+
+
+def _split(rng, v, unit=False):
+    """positive parts adding up to v exactly (multiples of 1 / denominator: counts are k/8 or k/64, exact in doubles)"""
+    q = F(1, v.denominator)
+    units = int(v / q)
+    if unit:
+        return [q] * units
+    k = min(units, rng.choice([1, 2, 2, 3]))
+    cuts = sorted(rng.sample(range(1, units), k - 1)) if k > 1 else []
+    return [q * (b - a) for a, b in zip([0] + cuts, cuts + [units])]
+
+
+def _entries(rng, M, dups, zeros, unit=False):
+    """stored triplets (i, j, value) denoting M.  dups: cells stored in several positive parts (at least one cell in two
+    parts whenever a count allows it); zeros: 'empty' = stored zeros on cells whose count is 0 (one of them opposite a
+    one-way count if there is one), 'any' = also on occupied cells"""
+    n = len(M)
+    ent = []
+    for i in range(n):
+        for j in range(n):
+            if M[i][j] > 0:
+                ent.append([(i, j, p) for p in (_split(rng, M[i][j], unit) if dups else [M[i][j]])])
+    if dups and all(len(e) == 1 for e in ent):
+        big = [t for t, e in enumerate(ent) if e[0][2].numerator >= 2]
+        if big:
+            t = rng.choice(big)
+            i, j, v = ent[t][0]
+            q = F(1, v.denominator)
+            a = q * rng.randrange(1, int(v / q))
+            ent[t] = [(i, j, a), (i, j, v - a)]
+    ent = [x for e in ent for x in e]
+    if zeros:
+        empty = [(i, j) for i in range(n) for j in range(n) if M[i][j] == 0]
+        oneway = [(i, j) for (i, j) in empty if M[j][i] > 0]
+        cells = []
+        if oneway:
+            cells.append(rng.choice(oneway))
+        for _ in range(rng.choice([1, 2, 3])):
+            pool = empty if (zeros == "empty" or rng.random() < 0.6) else [(i, j) for i in range(n) for j in range(n)]
+            if pool:
+                cells.append(rng.choice(pool))
+        if zeros == "empty":
+            cells = sorted(set(cells))
+        ent += [(i, j, F(0)) for (i, j) in cells]
+    rng.shuffle(ent)
+    return ent
+
+
+def _compressed(ent, n, major, sort_minor):
+    """(indptr, indices, data) of CSR (major = 0) / CSC (major = 1) holding the triplets in the given order per major index"""
+    ent = sorted(ent, key=(lambda e: (e[major], e[1 - major])) if sort_minor else (lambda e: e[major]))
+    indptr = [0] * (n + 1)
+    for e in ent:
+        indptr[e[major] + 1] += 1
+    for i in range(n):
+        indptr[i + 1] += indptr[i]
+    return indptr, [e[1 - major] for e in ent], [str(e[2]) for e in ent]
+
+
+def _recipe(rng, M, fmt, variant):
+    """a recipe of format fmt denoting the count matrix M (exact Fractions that are multiples of 1/8)"""
+    n = len(M)
+    integral = all(x.denominator == 1 for row in M for x in row)
+    rec = {"fmt": fmt, "n": n, "dtype": (("int64", "int32", "int64")[variant % 3] if integral else "float64")}
+    arr = "_array" if variant % 4 == 3 else "_matrix"
+    junk = (lambda: F(rng.randrange(1, 10))) if integral else (lambda: F(rng.randrange(1, 80), 8))
+    if fmt.startswith("coo"):
+        unit = fmt == "coo-unit" and integral and max(x for row in M for x in row) <= 30
+        ent = _entries(rng, M, dups=fmt in ("coo-dups", "coo-unit"), unit=unit,
+                       zeros={"coo-zeros": "empty", "coo-dups": ("any" if variant % 2 else None)}.get(fmt))
+        if fmt == "coo-zeros" and variant % 2:
+            ent.sort(key=lambda e: e[:2])
+        rec.update(cls="coo" + arr, row=[e[0] for e in ent], col=[e[1] for e in ent], data=[str(e[2]) for e in ent])
+    elif fmt[:3] in ("csr", "csc"):
+        major = 0 if fmt[:3] == "csr" else 1
+        if fmt.endswith("dups"):
+            ent = _entries(rng, M, dups=True, zeros=("any" if variant % 2 else None))
+            sort_minor = variant % 3 == 2           # duplicates next to each other, indices ascending
+        elif fmt.endswith("unsorted"):
+            ent = sorted(_entries(rng, M, dups=False, zeros=None), key=lambda e: -e[1 - major])
+            sort_minor = False                      # every row's indices descending
+        else:
+            ent = _entries(rng, M, dups=False, zeros="empty")
+            sort_minor = True                       # canonical apart from the stored zeros
+        indptr, indices, data = _compressed(ent, n, major, sort_minor)
+        rec.update(cls=fmt[:3] + arr, indptr=indptr, indices=indices, data=data)
+    elif fmt == "dia-wide":
+        offs = sorted({j - i for i in range(n) for j in range(n) if M[i][j] > 0})
+        spare = [k for k in range(-(n - 1), n) if k not in offs]
+        if spare and rng.random() < 0.4:
+            offs.append(rng.choice(spare))          # a stored diagonal without counts
+        rng.shuffle(offs)
+        L = n + rng.choice([1, 1, 2, 3])
+        # what the storage holds outside the matrix (spare columns, unused ends of the diagonals): zero padding, junk, either
+        pz = (1.0, 0.0, 1.0, 0.4)[(variant // 3) % 4]
+        data = [[M[j - k][j] if (j < n and 0 <= j - k < n) else (F(0) if rng.random() < pz else junk()) for j in range(L)]
+                for k in offs]
+        rec.update(cls=DIA_CLS[variant % 3], offsets=offs, data=[[str(x) for x in row] for row in data])
+    elif fmt == "bsr-dups":
+        b = {4: 2, 6: rng.choice([2, 3])}.get(n, 1)
+        nb = n // b
+        indptr, indices, blocks = [0], [], []
+        for I in range(nb):
+            row = []
+            for J in range(nb):
+                blk = [[M[I * b + p][J * b + q] for q in range(b)] for p in range(b)]
+                if all(x == 0 for r in blk for x in r):
+                    if rng.random() < 0.2:
+                        row.append((J, blk))        # a stored all-zero block
+                    continue
+                parts = [[_split(rng, x) if x > 0 else [] for x in r] for r in blk]
+                k = max(len(p) for r in parts for p in r)
+                for t in range(k):
+                    row.append((J, [[(p[t] if t < len(p) else F(0)) for p in r] for r in parts]))
+            rng.shuffle(row)
+            indices += [J for J, _ in row]
+            blocks += [[[str(x) for x in r] for r in blk] for _, blk in row]
+            indptr.append(len(indices))
+        rec.update(cls="bsr_matrix", b=b, indptr=indptr, indices=indices, data=blocks)
+    else:
+        raise ValueError(fmt)
+    return rec
+
+
+def _recipe_triplets(rec):
+    """every stored (row, col, value) of the container the recipe describes that lies inside the matrix"""
+    n, fmt = rec["n"], rec["fmt"]
+    if fmt.startswith("coo"):
+        return [(i, j, F(v)) for i, j, v in zip(rec["row"], rec["col"], rec["data"])]
+    if fmt[:3] in ("csr", "csc"):
+        out = []
+        for a in range(n):
+            for p in range(rec["indptr"][a], rec["indptr"][a + 1]):
+                bb = rec["indices"][p]
+                out.append((a, bb, F(rec["data"][p])) if fmt[:3] == "csr" else (bb, a, F(rec["data"][p])))
+        return out
+    if fmt == "dia-wide":
+        return [(j - k, j, F(row[j])) for k, row in zip(rec["offsets"], rec["data"]) for j in range(min(n, len(row)))
+                if 0 <= j - k < n]
+    if fmt == "bsr-dups":
+        b = rec["b"]
+        return [(I * b + p, rec["indices"][s] * b + q, F(rec["data"][s][p][q])) for I in range(n // b)
+                for s in range(rec["indptr"][I], rec["indptr"][I + 1]) for p in range(b) for q in range(b)]
+    raise ValueError(fmt)
+
+
+def _recipe_dense(rec):
+    """the matrix the recipe denotes: stored entries of one cell add up, everything else is 0 (exact)"""
+    n = rec["n"]
+    D = [[F(0)] * n for _ in range(n)]
+    for i, j, v in _recipe_triplets(rec):
+        D[i][j] += v
+    return D
+
+
+def _recipe_feats(rec):
+    n = rec["n"]
+    tr = _recipe_triplets(rec)
+    cells = [(i, j) for i, j, _ in tr]
+    f = []
+    pos = [(i, j) for i, j, v in tr if v > 0]
+    if len(set(pos)) < len(pos):
+        f.append("duplicates")                       # some cell is stored in >= 2 positive parts
+    elif len(set(cells)) < len(cells):
+        f.append("duplicate-zero-only")
+    if any(v == 0 for _, _, v in tr) and rec["fmt"] not in ("dia-wide", "bsr-dups"):
+        f.append("stored-zero")
+    if rec["fmt"] == "coo-unit" and all(v == 1 for _, _, v in tr):
+        f.append("one-entry-per-transition")
+    if rec["fmt"][:3] in ("csr", "csc"):
+        rows = [rec["indices"][rec["indptr"][a]:rec["indptr"][a + 1]] for a in range(n)]
+        if any(r != sorted(r) for r in rows):
+            f.append("unsorted-indices")
+    if rec["fmt"] == "dia-wide":
+        L = len(rec["data"][0])
+        if L > n:
+            f.append("dia-spare-columns")
+        outside = [F(row[j]) for k, row in zip(rec["offsets"], rec["data"]) for j in range(L) if not (j < n and 0 <= j - k < n)]
+        if any(v != 0 for v in outside):
+            f.append("dia-junk-outside")
+        if L > n and all(v == 0 for v in outside):
+            f.append("dia-zero-padded")
+        if rec["offsets"] != sorted(rec["offsets"]):
+            f.append("dia-offsets-unsorted")
+    return f
+
+
+def _recipe_build(rec):
+    import scipy.sparse as sp
+    n = rec["n"]
+    dt = np.dtype(rec["dtype"])
+
+    def arr(x):
+        a = np.array([[float(F(v)) for v in r] for r in x] if (x and isinstance(x[0], list)) else [float(F(v)) for v in x])
+        return a.astype(dt)
+    fmt = rec["fmt"]
+    if fmt.startswith("coo"):
+        return getattr(sp, rec["cls"])((arr(rec["data"]), (np.array(rec["row"], dtype=int), np.array(rec["col"], dtype=int))),
+                                       shape=(n, n))
+    if fmt[:3] in ("csr", "csc"):
+        return getattr(sp, rec["cls"])((arr(rec["data"]), np.array(rec["indices"], dtype=int), np.array(rec["indptr"], dtype=int)),
+                                       shape=(n, n))
+    if fmt == "dia-wide":
+        if rec["cls"] == "spdiags":
+            return sp.spdiags(arr(rec["data"]), rec["offsets"], n, n)
+        return getattr(sp, rec["cls"])((arr(rec["data"]), np.array(rec["offsets"])), shape=(n, n))
+    if fmt == "bsr-dups":
+        b = rec["b"]
+        data = np.array([[[float(F(v)) for v in r] for r in blk] for blk in rec["data"]]).reshape(-1, b, b).astype(dt)
+        return sp.bsr_matrix((data, np.array(rec["indices"], dtype=int), np.array(rec["indptr"], dtype=int)),
+                             shape=(n, n), blocksize=(b, b))
+    raise ValueError(fmt)
+
+
+def _stored_dense(B):
+    """what a scipy container denotes, read from its own storage arrays and summed exactly (not through toarray)"""
+    n = B.shape[0]
+    D = [[F(0)] * n for _ in range(n)]
+    f = B.format
+    if f == "coo":
+        tr = zip(B.row.tolist(), B.col.tolist(), B.data.tolist())
+    elif f in ("csr", "csc"):
+        ip, ix, dd = B.indptr.tolist(), B.indices.tolist(), B.data.tolist()
+        tr = [((a, ix[p], dd[p]) if f == "csr" else (ix[p], a, dd[p])) for a in range(n) for p in range(ip[a], ip[a + 1])]
+    elif f == "dia":
+        tr = [(j - int(k), j, row[j]) for k, row in zip(B.offsets.tolist(), B.data.tolist()) for j in range(min(n, len(row)))
+              if 0 <= j - int(k) < n]
+    elif f == "bsr":
+        b = B.blocksize[0]
+        ip, ix, dd = B.indptr.tolist(), B.indices.tolist(), B.data.tolist()
+        tr = [(I * b + p, ix[s] * b + q, dd[s][p][q]) for I in range(n // b) for s in range(ip[I], ip[I + 1])
+              for p in range(b) for q in range(b)]
+    else:
+        raise ValueError(f)
+    for i, j, v in tr:
+        D[i][j] += F(v)
+    return D
+
+
+def _cname(c):
+    return c["container"] if isinstance(c["container"], str) else "recipe"
+
+
 def generate(rng, tier):
     quick = tier == "quick"
     cases = []
@@ -429,6 +694,35 @@ def generate(rng, tier):
         cases.append({"kind": "scale", "C": _enc(M), "exps": SCALE_EXPS + [rng.choice(SCALE_FAR), rng.choice(SCALE_HUGE)],
                       "k": rng.choice([1, 2, 3]),
                       "container": rng.choice(CONTAINERS), "shape": shape, "style": style})
+    # ---- round 3s, fourth wave: builders.mle on non-canonically stored sparse counts (recipes; drawn last, so that the
+    # streams above keep their draws).  c["C"] is the matrix the recipe denotes.
+    fixed = [  # directed cycles as DIA with spare columns (zero padding / junk); CSR with repeated column indices
+        {"fmt": "dia-wide", "n": 4, "dtype": "float64", "cls": "dia_matrix", "offsets": [1, -3],
+         "data": [["0", "5", "7", "2", "0", "0"], ["4", "0", "0", "0", "0", "0"]]},
+        {"fmt": "dia-wide", "n": 3, "dtype": "int64", "cls": "spdiags", "offsets": [1, -2],
+         "data": [["8", "9", "19", "5"], ["13", "12", "7", "3"]]},
+        {"fmt": "csr-dups", "n": 3, "dtype": "int64", "cls": "csr_matrix", "indptr": [0, 4, 7, 10],
+         "indices": [0, 1, 1, 2, 0, 2, 2, 0, 0, 1], "data": ["3", "2", "5", "1", "4", "6", "1", "2", "2", "7"]}]
+    for rec in fixed:
+        cases.append({"kind": "cert", "C": _enc(_recipe_dense(rec)), "container": rec, "shape": "fixed", "style": "int", "seed": 1})
+    n_rec = 48 if quick else 360
+    nth = {}
+    for t in range(n_rec):
+        fmt = RECIPE_FMTS[t % len(RECIPE_FMTS)]
+        shape = RECIPE_SHAPES[(t // len(RECIPE_FMTS) + t) % len(RECIPE_SHAPES)]
+        if fmt == "dia-wide" and rng.random() < 0.5:
+            shape = rng.choice(["ring", "sparse"])            # pairs observed in one direction only
+        style = "eighth" if (t % 3 == 2 and fmt != "coo-unit") else "int"
+        if fmt == "coo-unit" and shape == "asym":
+            shape = "mid"
+        n = rng.choice([2, 3, 3, 4, 4, 5] if quick else [2, 3, 4, 4, 5, 6])
+        M = _matrix(rng, n, shape, style)
+        nth[fmt] = nth.get(fmt, -1) + 1                       # variants dealt in turn: class, dtype, stored zeros, order
+        rec = _recipe(rng, M, fmt, nth[fmt])
+        if _recipe_dense(rec) != M:
+            raise ValueError("harness: the recipe does not denote the matrix it was made from")
+        cases.append({"kind": "cert", "C": _enc(M), "container": rec, "shape": shape, "style": style,
+                      "seed": rng.randrange(10 ** 6)})
     return cases
 
 
@@ -586,14 +880,28 @@ def run_impl(c):
         return {"py": _call(builders._prinz_mle_py, A.copy(), max_iter=c["k"]),
                 "pyx": _call(builders._prinz_mle, A.copy(), max_iter=c["k"])}
     import scipy.sparse
-    B = A.astype(int) if (allint and c["seed"] % 2 == 0) else A.copy()
-    if c["container"] != "ndarray":
-        B = getattr(scipy.sparse, c["container"])(B)
-    keep = B.copy()
 
     def mle(X):
         _, T, pi = builders.mle(X)
         return T, pi
+    if isinstance(c["container"], dict):
+        rec = c["container"]
+        M = _dec(c["C"])
+        if _recipe_dense(rec) != M:
+            raise ValueError("harness: the recipe does not denote C")
+        B = _recipe_build(rec)
+        if _stored_dense(B) != M or not np.array_equal(B.toarray().astype(float), A) or B.toarray().dtype != np.dtype(rec["dtype"]):
+            raise ValueError("harness: scipy reads the recipe differently")
+        Bd = A.astype(rec["dtype"])
+        dt0 = B.dtype
+        r = {"mle": _call(mle, B), "mle_dense": _call(mle, Bd), "py": _call(builders._prinz_mle_py, A.copy()),
+             "pyx": _call(builders._prinz_mle, A.copy())}
+        r["input_unchanged"] = bool(_stored_dense(B) == M and B.dtype == dt0 and np.array_equal(Bd.astype(float), A))
+        return r
+    B = A.astype(int) if (allint and c["seed"] % 2 == 0) else A.copy()
+    if c["container"] != "ndarray":
+        B = getattr(scipy.sparse, c["container"])(B)
+    keep = B.copy()
     r = {"mle": _call(mle, B), "py": _call(builders._prinz_mle_py, A.copy()), "pyx": _call(builders._prinz_mle, A.copy())}
     same = (abs(keep - B)).sum() == 0
     r["input_unchanged"] = bool(same)
@@ -971,6 +1279,16 @@ def oracle(c, r):
             _cert(M, ri, out, impl, _tol2(M))
     if c["kind"] == "sweep" and not rejected and not out:
         _agree_k(c, r["py"], r["pyx"], c["k"], out)
+    if "mle_dense" in r and not rejected and "T" in r["mle"]:
+        # the same counts given densely: the estimator sees C.toarray() in both cases, so the models are the same
+        # (bit-identical on the unchanged code; demanded: 1e-12, as between mle and _prinz_mle_py in the Coq comparison)
+        if "err" in r["mle_dense"]:
+            out.append(("terminates", "mle raised %s on the dense form of strongly connected C=%s" % (r["mle_dense"]["err"], c["C"])))
+        else:
+            d = _maxdiff(r["mle"], r["mle_dense"])
+            if d > F(1, 10 ** 12):
+                out.append(("sparse-dense-agree", "builders.mle of the sparse container %s differs by %.3g from builders.mle of the "
+                            "matrix it denotes, C=%s" % (str(c["container"])[:300], float(d), c["C"])))
     if c["kind"] != "cert" or out or rejected:
         return out
     if not r.get("input_unchanged", True):
@@ -1121,7 +1439,18 @@ def tags(c, r):
                 t.append("sweep-compared-%s" % impl if ri["warn"] else "sweep-early-stop")
     else:
         t.append("cert-" + ("dense" if c["container"] == "ndarray" else "sparse"))
-        t.append("cert-" + c["container"])
+        t.append("cert-" + _cname(c))
+        if isinstance(c["container"], dict):
+            rec = c["container"]
+            oneway = any(M[i][j] == 0 and M[j][i] > 0 for i in range(n) for j in range(n))
+            t += ["recipe-" + rec["fmt"], "recipe-" + rec["cls"], "recipe-" + rec["dtype"]]
+            got = "T" in r.get("mle", {}) and "T" in r.get("mle_dense", {})
+            for f in _recipe_feats(rec):
+                t.append("recipe-" + f)
+                if got:
+                    t.append("recipe-%s-compared" % f)
+                    if oneway:
+                        t.append("recipe-%s-one-way-pair-compared" % f)
         for impl in ("mle", "py", "pyx"):
             if r[impl].get("warn"):
                 t.append("cert-convergence-warning-%s" % impl)
@@ -1174,7 +1503,14 @@ ESSENTIAL_TAGS = ["sweep-k1", "sweep-k2", "sweep-k3", "sweep-compared-py", "swee
                   "scale-2^-34-py-converged-compared", "scale-2^-34-pyx-converged-compared", "scale-pair-sums-below-1e-8",
                   # round 3s, second wave
                   "first-sweep-stationary-pairs-sweep", "first-sweep-stationary-pairs-cert", "first-sweep-stationary-pairs-mono",
-                  "first-sweep-stationary-pairs-later-sweep-compared-py", "first-sweep-stationary-pairs-later-sweep-compared-pyx"]
+                  "first-sweep-stationary-pairs-later-sweep-compared-py", "first-sweep-stationary-pairs-later-sweep-compared-pyx",
+                  # round 3s, fourth wave: non-canonically stored sparse counts
+                  "recipe-coo-dups", "recipe-coo-unit", "recipe-csr-dups", "recipe-csc-dups", "recipe-csr-unsorted", "recipe-coo-zeros",
+                  "recipe-csr-zeros", "recipe-dia-wide", "recipe-bsr-dups", "recipe-dia_matrix", "recipe-spdiags", "recipe-dia_array",
+                  "recipe-duplicates-compared", "recipe-stored-zero-compared", "recipe-unsorted-indices-compared",
+                  "recipe-one-entry-per-transition-compared", "recipe-dia-spare-columns-one-way-pair-compared",
+                  "recipe-dia-junk-outside-compared", "recipe-dia-zero-padded-one-way-pair-compared",
+                  "recipe-duplicates-one-way-pair-compared", "recipe-float64", "recipe-int64"]
 
 
 def search(rng, tier):
